@@ -17,11 +17,38 @@ type Loaded struct {
 	Pkgs    map[string]*ssa.Package
 	Overlay map[string][]byte
 	Repo    string
+	Dropped []string // harness files left out because they do not compile against this tree
 }
 
 // Load builds SSA for the given package paths (module ergo.services/ergo rooted at repo).
 // overlay maps virtual file paths below repo to harness sources.
 func Load(repo string, pkgPaths []string, overlay map[string][]byte) (*Loaded, error) {
+	// A harness file that no longer compiles against the current tree (an internal signature was
+	// changed) is dropped and the load repeated, so that the other harness files of the package still
+	// run; the entries that lived in a dropped file are reported as inconclusive by the caller.
+	var dropped []string
+	for attempt := 0; ; attempt++ {
+		l, bad, err := load1(repo, pkgPaths, overlay)
+		if err == nil {
+			l.Dropped = dropped
+			return l, nil
+		}
+		if attempt >= 4 || len(bad) == 0 {
+			return nil, err
+		}
+		ov := map[string][]byte{}
+		for k, v := range overlay {
+			ov[k] = v
+		}
+		for _, f := range bad {
+			delete(ov, f)
+			dropped = append(dropped, f+": "+firstLine(err.Error()))
+		}
+		overlay = ov
+	}
+}
+
+func load1(repo string, pkgPaths []string, overlay map[string][]byte) (*Loaded, []string, error) {
 	cfg := &packages.Config{
 		Mode:       packages.LoadAllSyntax,
 		Dir:        repo,
@@ -32,16 +59,27 @@ func Load(repo string, pkgPaths []string, overlay map[string][]byte) (*Loaded, e
 	}
 	initial, err := packages.Load(cfg, pkgPaths...)
 	if err != nil {
-		return nil, err
+		return nil, nil, err
 	}
 	var errs []string
+	badSet := map[string]bool{}
 	packages.Visit(initial, nil, func(p *packages.Package) {
 		for _, e := range p.Errors {
 			errs = append(errs, e.Error())
+			if i := strings.IndexByte(e.Pos, ':'); i > 0 {
+				f := e.Pos[:i]
+				if _, isOv := overlay[f]; isOv && strings.HasPrefix(filepath.Base(f), "zz_verif_") && filepath.Base(f) != "zz_verif_rt.go" {
+					badSet[f] = true
+				}
+			}
 		}
 	})
 	if len(errs) > 0 {
-		return nil, fmt.Errorf("load errors (harness does not compile against this tree?):\n  %s", strings.Join(errs, "\n  "))
+		var bad []string
+		for f := range badSet {
+			bad = append(bad, f)
+		}
+		return nil, bad, fmt.Errorf("load errors (harness does not compile against this tree?):\n  %s", strings.Join(errs, "\n  "))
 	}
 	prog, pkgs := ssautil.AllPackages(initial, ssa.InstantiateGenerics|ssa.SanityCheckFunctions&0)
 	prog.Build()
@@ -51,7 +89,7 @@ func Load(repo string, pkgPaths []string, overlay map[string][]byte) (*Loaded, e
 			l.Pkgs[initial[i].PkgPath] = p
 		}
 	}
-	return l, nil
+	return l, nil, nil
 }
 
 // OverlayFor maps harness files in dir (…/harness/<rel pkg>/*.go) and the runtime into repo paths.
